@@ -57,6 +57,7 @@ type RecPeerStore struct {
 	mu      sync.Mutex
 	banned  []string // arguments of Banned, in order
 	added   []string
+	conns   []string // addresses whose LastConnect was updated, i.e. peers put into the peer map
 	delay   func(method string) time.Duration
 	changed chan struct{}
 }
@@ -112,7 +113,16 @@ func (p *RecPeerStore) PeerInfo(addr string) (syncer.PeerInfo, error) {
 // UpdatePeerInfo implements syncer.PeerStore.
 func (p *RecPeerStore) UpdatePeerInfo(addr string, fn func(*syncer.PeerInfo)) error {
 	defer p.through("UpdatePeerInfo")()
-	return p.inner.UpdatePeerInfo(addr, fn)
+	return p.inner.UpdatePeerInfo(addr, func(info *syncer.PeerInfo) {
+		before := info.LastConnect
+		fn(info)
+		if !info.LastConnect.Equal(before) {
+			// only addPeer touches LastConnect: a connection is being added
+			p.mu.Lock()
+			p.conns = append(p.conns, addr)
+			p.mu.Unlock()
+		}
+	})
 }
 
 // Ban implements syncer.PeerStore.
@@ -139,6 +149,21 @@ func (p *RecPeerStore) BannedCalls() int {
 	p.mu.Lock()
 	defer p.mu.Unlock()
 	return len(p.banned)
+}
+
+// DuplicateConnAddrs returns the dial-back addresses under which more than one
+// connection was put into the peer map during the life of the syncer.
+func (p *RecPeerStore) DuplicateConnAddrs() []string {
+	p.mu.Lock()
+	defer p.mu.Unlock()
+	seen := map[string]int{}
+	var dup []string
+	for _, a := range p.conns {
+		if seen[a]++; seen[a] == 2 {
+			dup = append(dup, a)
+		}
+	}
+	return dup
 }
 
 // Added returns the addresses passed to AddPeer.
